@@ -33,8 +33,22 @@ SERS = {
     "indent2": dict(indent=2),
     "tab-noascii": dict(indent="\t", ensure_ascii=False),
     "indent1": dict(indent=1),
+    # the streamed form Table.to_json(generated_by, direct_io=handle): ANOTHER top-level key order
+    # (id, format, format_url, generated_by, date, matrix_element_type, shape, type, matrix_type, data, rows, columns)
+    "direct_io": None,
+    "dio-compact": dict(separators=(",", ":")),
+    "dio-default": dict(),
+    "dio-indent2": dict(indent=2),
+    # alphabetical key order (json.dumps(sort_keys=True)); records' keys are sorted too
+    "sorted": dict(sort_keys=True),
+    "sorted-indent2": dict(sort_keys=True, indent=2),
+    "sorted-compact": dict(sort_keys=True, separators=(",", ":")),
 }
 MAIN_SERS = ["writer", "compact", "default", "indent2"]
+DIO_SERS = ["direct_io", "dio-compact", "dio-default", "dio-indent2"]
+SORTED_SERS = ["sorted", "sorted-indent2", "sorted-compact"]
+EXTRA_SERS = DIO_SERS[1:] + SORTED_SERS + ["tab-noascii", "indent1"]
+SORTED_ORDER = sorted(TOP_KEYS)
 
 T_QUOTE = "slicer:odd-quote-or-unbalanced-bracket-in-string"
 T_MDKEY = "slicer:mdkey-columns"
@@ -86,8 +100,9 @@ def keys_of(v):
             yield from keys_of(x)
 
 
-def slicer_tags(spec, gen):
-    """known-finding tags derived from the INPUT only"""
+def slicer_tags(spec, gen, ser="writer"):
+    """known-finding tags derived from the INPUT only (the table, the header strings, the key order of the
+    serialisation)"""
     tags = []
     strs = list(spec["obs"]) + list(spec["samp"])
     for md in (spec.get("omd"), spec.get("smd")):
@@ -96,9 +111,20 @@ def slicer_tags(spec, gen):
                 strs.extend(strings_of(e))
     if any(scanner_confused(s) for s in strs):
         tags.append(T_QUOTE)
-    if spec.get("omd") and any(k == "columns" for e in spec["omd"] for k in keys_of(e)):
+    # a metadata category named like a top-level key that comes LATER in the text than the records holding it
+    if ser.startswith("sorted"):
+        after_rows = set(SORTED_ORDER[SORTED_ORDER.index("rows") + 1:])
+        after_cols = set(SORTED_ORDER[SORTED_ORDER.index("columns") + 1:])
+    else:
+        after_rows, after_cols = {"columns"}, set()
+    if (spec.get("omd") and any(k in after_rows for e in spec["omd"] for k in keys_of(e))) or \
+            (spec.get("smd") and any(k in after_cols for e in spec["smd"] for k in keys_of(e))):
         tags.append(T_MDKEY)
     header = [str(spec.get("table_id")), gen, spec.get("type") or ""]
+    if ser.startswith("sorted") and spec["samp"]:
+        # alphabetical key order: the first '"id":' of the text is the first column record's, and that is
+        # what the slicer copies (by its "number" branch) as the table id
+        header.append(spec["samp"][0])
     if any(c in h for h in header for c in ",{}"):
         tags.append(T_HEADER)
     return tags
@@ -116,10 +142,11 @@ def res_of(f):
     return {"ok": o}, None
 
 
-def serialise(text, ser):
+def serialise(fx, ser):
+    base = fx.text_dio if (ser == "direct_io" or ser.startswith("dio-")) else fx.text
     if SERS[ser] is None:
-        return text
-    return json.dumps(json.loads(text), **SERS[ser])
+        return base
+    return json.dumps(json.loads(base), **SERS[ser])
 
 
 def doc_of(text):
@@ -151,6 +178,11 @@ class Fixture:
         if prng:
             self.poked += core.poke_layout(t, prng, 3)
         self.text = t.to_json(gen)
+        if prng:
+            self.poked += core.poke_layout(t, prng, 2)
+        buf = io.StringIO()
+        t.to_json(gen, direct_io=buf)
+        self.text_dio = buf.getvalue()
         self._pf = {}
         with h5py.File(self.path, "r") as f:
             self.full_h5 = Table.from_hdf5(f)
@@ -159,6 +191,9 @@ class Fixture:
         self.full_json_obs = core.table_obs(Table.from_json(json.loads(self.text)))
         self.doc = doc_of(self.text)
         self.tags = slicer_tags(spec, gen)
+        d1, d2 = json.loads(self.text), json.loads(self.text_dio)
+        d1.pop("date"), d2.pop("date")
+        self.dio_same_doc = d1 == d2
 
     def _view(self, f):
         def grp(ax):
@@ -259,7 +294,7 @@ def make_call(fx, variant, ids, axis, ser="writer", how="list", form="str", opts
             assert fmt == "hdf5"
             return t
     elif variant == "jsonparse":
-        txt = text if text is not None else serialise(fx.text, ser)
+        txt = text if text is not None else serialise(fx, ser)
 
         def f():
             if form == "handle":
@@ -270,7 +305,7 @@ def make_call(fx, variant, ids, axis, ser="writer", how="list", form="str", opts
                 return parse_biom_table(txt, list(ids), axis, False)
             return parse_biom_table(txt, ids=list(ids), axis=axis)
     elif variant == "cmdjson":
-        txt = text if text is not None else serialise(fx.text, ser)
+        txt = text if text is not None else serialise(fx, ser)
 
         def f():
             gen, fmt = _subset_table(None, txt, axis, ids if opts.get("same_list") else list(ids))
@@ -292,7 +327,34 @@ def real_result(fx, variant, ids, axis, ser="writer", how="list", form="str", op
     return res_of(make_call(fx, variant, ids, axis, ser, how, form, opts))
 
 
-def cli_result(fx, kind, ids, axis, n, inj_path=None):
+IDS_DECOS = ["plain", "columns", "trail", "crlf", "comments", "noeol"]
+
+
+def expressible(i):
+    """can the documented IDs file (first tab-separated field of a line, lines starting with # skipped, the
+    line stripped) name this ID?"""
+    return i != "" and i == i.lstrip() and not i.startswith("#") and not any(c in i for c in "\t\n\r")
+
+
+def write_ids_file(path, ids, deco):
+    nl = "\r\n" if deco == "crlf" else "\n"
+    lines = []
+    if deco in ("comments", "columns"):
+        lines.append("#SampleID\tBarcode\tDescription")
+    for j, i in enumerate(ids):
+        if deco == "columns" or i != i.rstrip():       # a trailing blank of the ID survives only before a tab
+            lines.append(i + "\tACGT%d\tsome value %d" % (j, j))
+        elif deco == "trail":
+            lines.append(i + "   ")
+        else:
+            lines.append(i)
+        if deco == "comments":
+            lines.append("# a comment naming " + i)
+    with open(path, "w", encoding="utf8", newline="") as f:
+        f.write(nl.join(lines) + ("" if deco == "noeol" else nl))
+
+
+def cli_result(fx, kind, ids, axis, n, inj_path=None, deco="columns", ser="writer"):
     """the click sub-command itself (never the group: it closes fd 1), output file loaded again"""
     import h5py
     from click.testing import CliRunner
@@ -303,16 +365,13 @@ def cli_result(fx, kind, ids, axis, n, inj_path=None):
     inj = inj_path or os.path.join(TMP, "in%d.json" % n)
     long_flags = n % 2 == 1
     before = open(fx.path, "rb").read() if kind == "cmdh5" else None
-    with open(idf, "w", encoding="utf8") as f:
-        f.write("#ids\n")
-        for i in ids:
-            f.write(i + "\tignored\n")
+    write_ids_file(idf, ids, deco)
     try:
         if kind == "cmdh5":
             args = ["--input-hdf5-fp" if long_flags else "-i", fx.path]
         else:
             with open(inj, "w", encoding="utf8") as f:
-                f.write(fx.text)
+                f.write(serialise(fx, ser))
             args = ["--input-json-fp" if long_flags else "-j", inj]
         rest = ["--axis", axis, "--ids", idf, "--output-fp", out] if long_flags else ["-a", axis, "-s", idf, "-o", out]
 
@@ -339,16 +398,18 @@ def cli_result(fx, kind, ids, axis, n, inj_path=None):
 
 # ----------------------------------------------------------------------------- one case
 def check_case(ctx, fx, variant, ids, axis, ser="writer", how="list", form="str", tags=(), cli=False,
-               result=None, opts=None, inj_path=None):
+               result=None, opts=None, inj_path=None, deco="columns"):
     opts = opts or {}
     inp = {"spec": fx.spec, "route": fx.route, "gen": fx.gen, "poke": fx.poke, "variant": variant, "ids": list(ids),
-           "axis": axis, "ser": ser, "how": how, "form": form, "cli": cli, "opts": opts}
+           "axis": axis, "ser": ser, "how": how, "form": form, "cli": cli, "opts": opts,
+           "deco": deco if cli else None}
     axis_ids = fx.spec["samp"] if axis == "sample" else fx.spec["obs"]
     known = all(i in axis_ids for i in ids)
     ctx.case(inp, nontrivial=len(axis_ids) >= 2)
     if result is None:
         if cli:
-            result, note = cli_result(fx, variant, ids, axis, ctx.evaluations, inj_path)
+            result, note = cli_result(fx, variant, ids, axis, ctx.evaluations, inj_path, deco, ser)
+            ctx.count("cli:ids-file=" + deco)
         else:
             result, note = real_result(fx, variant, ids, axis, ser, how, form, opts)
     else:
@@ -365,7 +426,8 @@ def check_case(ctx, fx, variant, ids, axis, ser="writer", how="list", form="str"
         req["file"] = view
     r = ctx.driver.ask(req)
     case = {"input": inp, "request": req}
-    tags = list(tags) + [variant, "axis=" + axis, "ser=" + ser] + (fx.tags if variant == "cmdjson" else [])
+    tags = list(tags) + [variant, "axis=" + axis, "ser=" + ser] + \
+        (slicer_tags(fx.spec, fx.gen, ser) if variant == "cmdjson" else [])
     for k, v in sorted(opts.items()):
         ctx.count("opt:%s=%s" % (k, v))
     if opts.get("profile") == "raise" and "ok" in r["model"] and known and len(set(ids)) == len(ids):
@@ -410,7 +472,7 @@ def check_text(ctx, fx, ids, axis, ser):
     """raw-text layer: direct_parse_key on every key, direct_slice_data and the stitched output"""
     from biom.parse import direct_parse_key, direct_slice_data, get_axis_indices
     from biom.cli.table_subsetter import _subset_table
-    text = serialise(fx.text, ser)
+    text = serialise(fx, ser)
     inp = {"spec": fx.spec, "route": fx.route, "gen": fx.gen, "variant": "text", "ids": list(ids),
            "axis": axis, "ser": ser}
     ctx.case(inp, nontrivial=True)
@@ -614,7 +676,7 @@ def handle_sequence(ctx, fx, rng):
     ctx.count("sequence=same-handle")
     # one text object, one list object for the request, several calls
     ser = rng.choice(MAIN_SERS)
-    text = serialise(fx.text, ser)
+    text = serialise(fx, ser)
     axis = rng.choice(["sample", "observation"])
     axis_ids = list(fx.spec["samp"] if axis == "sample" else fx.spec["obs"])
     rng.shuffle(axis_ids)
@@ -907,6 +969,82 @@ def state_stream(ctx, rng, n0):
     return n + 1
 
 
+def ser_stream(ctx, rng, n0):
+    """every serialisation the library itself produces (string form, streamed direct_io form) and re-serialisations
+    with every top-level key order (as written, direct_io order, alphabetical), both axes, through the slicer"""
+    n = n0
+    base = {"obs": ["O1", "O2", "O3"], "samp": ["S1", "S2", "S3", "S4"],
+            "rows": [[1, 0, 2, 0], [0, 0, 0, 5], [3, 4, 0, 0]],
+            "omd": [{"taxonomy": ["k__A", "p__x"], "grp": "a"}, {"taxonomy": ["k__B", "p__y"], "grp": "b"},
+                    {"taxonomy": ["k__C", "p__z"], "grp": "c"}],
+            "smd": [{"depth": 1}, {"depth": 2}, {"depth": 3}, {"depth": 4}], "type": "OTU table"}
+    for spec, gen in ((base, "BIOM-Format 2.1"), (dict(base, omd=None, smd=None, type="Pathway table"), "x"),
+                      (dict(base, type=None), "x")):
+        n += 1
+        fx = Fixture(spec, ["dense", "csc", "csr"][n % 3], gen, n)
+        try:
+            if not fx.dio_same_doc:
+                ctx.diverge({"input": {"spec": spec}}, "to_json string form and direct_io form describe different documents",
+                            ["serialisations"])
+            for ser in MAIN_SERS + DIO_SERS + SORTED_SERS + ["tab-noascii", "indent1"]:
+                for axis, ids in (("sample", ["S3", "S1"]), ("observation", ["O2"]), ("sample", ["S2"]),
+                                  ("observation", ["O3", "O1", "O2"])):
+                    if ser.startswith("sorted") and spec["type"] is None:
+                        # alphabetical order puts "type": null last: outside what the library writes; observed,
+                        # reported to the lead, not judged
+                        res, _ = real_result(fx, "cmdjson", ids, axis, ser=ser)
+                        ctx.count("observed:sorted-keys+type-null:" + ("error=" + res["error"] if "error" in res else "ok"))
+                        continue
+                    check_case(ctx, fx, "cmdjson", ids, axis, ser=ser, tags=["serialisations"])
+                    if ser in ("direct_io", "dio-indent2", "sorted"):
+                        check_case(ctx, fx, "jsonparse", ids, axis, ser=ser, tags=["serialisations"])
+                if not (ser.startswith("sorted") and spec["type"] is None):
+                    check_text(ctx, fx, ["S4", "S2"], "sample", ser)
+            for ser in ("direct_io", "dio-default", "sorted"):
+                if not (ser.startswith("sorted") and spec["type"] is None):
+                    check_case(ctx, fx, "cmdjson", ["O3"], "observation", ser=ser, cli=True, deco="plain",
+                               tags=["serialisations", "cli"])
+        finally:
+            fx.close()
+    ctx.count("stream=serialisations")
+    return n
+
+
+def cli_stream(ctx, rng, n0):
+    """the real click sub-command with an IDs FILE: IDs with inner blanks (one a prefix of another up to a blank),
+    extra tab-separated columns, trailing blanks, CRLF, comment lines, no final newline; HDF5 and JSON input, both axes"""
+    n = n0 + 1
+    spec = {"obs": ["gut", "gut 2", "skin day 3", "skin", "OTU 2", "OTU"],
+            "samp": ["s a", "s", "s a b", "day 1 ", "x", "day 1"],
+            "rows": [[float(1 + i * 6 + j) if (i + j) % 4 else 0.0 for j in range(6)] for i in range(6)],
+            "omd": [{"k": "vo%d" % i} for i in range(6)], "smd": [{"k": "vs%d" % j} for j in range(6)],
+            "type": "OTU table"}
+    fx = Fixture(spec, "csr", "x", n)
+    reqs = {"observation": [["gut 2"], ["skin day 3", "gut"], ["gut 2", "gut", "OTU 2"], ["OTU"], ["skin", "skin day 3"],
+                            ["OTU 2", "skin day 3", "gut 2"]],
+            "sample": [["s a"], ["s a b", "s"], ["day 1 ", "x"], ["s"], ["day 1"], ["day 1", "day 1 ", "s a"]]}
+    unknown = {"observation": [["gut 3"], ["gut 2", "skin day"], ["OTU 2 "]], "sample": [["s b"], ["s a", "day 2"]]}
+    try:
+        k = 0
+        for axis in ("observation", "sample"):
+            for ids in reqs[axis]:
+                for kind in ("cmdh5", "cmdjson"):
+                    for _ in range(2):
+                        deco = IDS_DECOS[k % len(IDS_DECOS)]
+                        ser = (MAIN_SERS + ["direct_io"])[k % 5]
+                        k += 1
+                        check_case(ctx, fx, kind, ids, axis, ser=ser, cli=True, deco=deco, tags=["cli", "ids-file"])
+            for ids in unknown[axis]:
+                for kind in ("cmdh5", "cmdjson"):
+                    deco = IDS_DECOS[k % len(IDS_DECOS)]
+                    k += 1
+                    check_case(ctx, fx, kind, ids, axis, cli=True, deco=deco, tags=["cli", "ids-file", "unknown-id"])
+    finally:
+        fx.close()
+    ctx.count("stream=cli-ids-file")
+    return n
+
+
 def run(ctx):
     quick = ctx.quick()
     rng = ctx.rng
@@ -955,6 +1093,10 @@ def run(ctx):
             fx.close()
         # 2a. process-level state / path re-use: early in the run, before the default calls of the main stream
         n = state_stream(ctx, rng, n)
+        # 2a'. every serialisation / key order; the command line with an IDs file
+        if first or not quick:
+            n = ser_stream(ctx, rng, n)
+            n = cli_stream(ctx, rng, n)
         # 2b. wide axes (9-16 vectors), kept positions spread over the range
         if first or not quick:
             n = wide_stream(ctx, rng, n, quick)
@@ -962,7 +1104,7 @@ def run(ctx):
         if first or not quick:
             n = large_stream(ctx, rng, n, quick)
         # 3. main stream
-        n_tables = 35 if quick else max(40, 520 // getattr(ctx, "worker", (0, 1))[1])
+        n_tables = 32 if quick else max(40, 520 // getattr(ctx, "worker", (0, 1))[1])
         routes = ["dense", "csr", "csc", "coo", "csr_unsorted", "csr_zeros", "sort_roundtrip", "lil"]
         gens = ["BIOM-Format 2.1", "x", "généré par é"]
         for k in range(n_tables):
@@ -973,23 +1115,29 @@ def run(ctx):
                          poke=rng.randrange(10 ** 6) if k % 3 else None)
             ctx.count("stream=main")
             ctx.count("poked=%s" % ("yes" if fx.poked else "no"))
-            sers = MAIN_SERS + (["tab-noascii", "indent1"] if k % 6 == 0 else [])
+            extra = [e for e in EXTRA_SERS if spec["type"] is not None or not e.startswith("sorted")]
+            sers = MAIN_SERS + (["direct_io"] if k % 2 == 0 else []) + \
+                ([extra[k % len(extra)], extra[(k + 4) % len(extra)]] if k % 3 == 0 else [])
             try:
                 run_fixture(ctx, fx, rng, quick, sers=sers)
                 # the command itself on a few
                 if k % (9 if quick else 15) == 0:
                     for axis, axis_ids in (("sample", spec["samp"]), ("observation", spec["obs"])):
-                        ids = rng.sample(axis_ids, rng.randint(1, len(axis_ids)))
-                        if any(i != i.strip() or "\t" in i for i in ids):
+                        ok_ids = [i for i in axis_ids if expressible(i)]
+                        if not ok_ids:
                             continue
-                        check_case(ctx, fx, "cmdh5", ids, axis, cli=True, tags=["cli"])
-                        check_case(ctx, fx, "cmdjson", ids, axis, cli=True, tags=["cli"])
+                        ids = rng.sample(ok_ids, rng.randint(1, len(ok_ids)))
+                        check_case(ctx, fx, "cmdh5", ids, axis, cli=True, deco=rng.choice(IDS_DECOS), tags=["cli"])
+                        check_case(ctx, fx, "cmdjson", ids, axis, cli=True, deco=rng.choice(IDS_DECOS),
+                                   ser=rng.choice(MAIN_SERS + ["direct_io"]), tags=["cli"])
                         # the ids file is stripped line by line: only blank-free unknown IDs here
                         base = max(axis_ids, key=len)
                         for u in (base + "0", base + "_b2"):
                             if u in axis_ids:
                                 continue
-                            req = [i for i in axis_ids if i != base and i == i.strip() and "\t" not in i] + [u]
+                            if not expressible(u):
+                                continue
+                            req = [i for i in axis_ids if i != base and expressible(i)] + [u]
                             check_case(ctx, fx, "cmdh5", req, axis, cli=True, tags=["cli", "unknown-id"])
                             check_case(ctx, fx, "cmdjson", req, axis, cli=True, tags=["cli", "unknown-id"])
                         ctx.count("cli")
@@ -1011,7 +1159,7 @@ def replay(ctx, rec):
             else:
                 check_case(ctx, fx, inp["variant"], inp["ids"], inp["axis"], ser=inp.get("ser", "writer"),
                            how=inp.get("how", "list"), form=inp.get("form", "str"), cli=inp.get("cli", False),
-                           opts=inp.get("opts") or None, tags=["replay"])
+                           opts=inp.get("opts") or None, deco=inp.get("deco") or "columns", tags=["replay"])
         finally:
             fx.close()
     finally:
